@@ -225,6 +225,8 @@ def parseAOp (sizeT : Nat) (t : String) : Option Hand.AOp :=
   match t.splitOn ":" with
   | ["z", len] => do pure (.zeroed (← parseHex len))
   | ["w", k, i, v] => do pure (.write (← parseHex k) (← parseHex i) (← parseBytes v))
+  -- `as_mut_ptr().add(i).write(v)`: the same store as through the mutable view (the harness only issues in-range ones)
+  | ["p", k, i, v] => do pure (.write (← parseHex k) (← parseHex i) (← parseBytes v))
   | ["r", k, i] => do pure (.read (← parseHex k) (← parseHex i))
   | ["c", k] => do pure (.clone (← parseHex k))
   | ["f", d, s] => do pure (.cloneFrom (← parseHex d) (← parseHex s))
